@@ -8,3 +8,25 @@ package reference
 //@ contract (reference.Targets).Swap (r, i, j)
 //@   requires 0 <= i && i < len(r) && 0 <= j && j < len(r)
 //@   modifies r[*]
+
+// ---- C08 / C11: which targets a reference may see. Block-local names are visible only from inside the
+// ---- range their target is targetable from, never from another file, and self.* only where enabled.
+//@ contract reference.rangeOverlaps (one, other) (ok)
+//@   ensures [C08,C11] implies(ok, one.Filename == other.Filename)
+//@   ensures [C08,C11] ok == (one.Filename == other.Filename && !(one.Empty() && other.Empty()) && (one.ContainsOffset(other.Start.Byte) || one.ContainsOffset(other.End.Byte) || other.ContainsOffset(one.Start.Byte) || other.ContainsOffset(one.End.Byte)))
+//@ contract reference.localTargetMatches (ctx, target, ref, prefix, outermostBodyRng, originRng) (ok)
+//@   ensures [C08] implies(ok, len(target.LocalAddr) > 0 && strings.HasPrefix(target.LocalAddr.String(), prefix))
+//@   ensures [C08] implies(ok && target.TargetableFromRangePtr != nil, rangeOverlaps(*target.TargetableFromRangePtr, originRng))
+//@   ensures [C08] implies(ok, schema.ActiveSelfRefsFromContext(ctx) || target.LocalAddr[0].String() != "self")
+//@ contract reference.absTargetMatches (ctx, target, ref, prefix, outermostBodyRng, originRng) (ok)
+//@   ensures [C08] implies(ok, len(target.Addr) > 0 && strings.HasPrefix(target.Addr.String(), prefix))
+//@   ensures [C08] implies(ok, !referenceTargetIsInRange(target, outermostBodyRng))
+
+// ---- C11: one resolution rule for both directions
+//@ contract (reference.Target).Matches (target, origin) (ok)
+//@   requires origin != nil
+//@   ensures [C11] implies(ok && target.Type != cty.DynamicPseudoType, (target.LocalAddr.Equals(origin.Address()) && (target.TargetableFromRangePtr == nil || rangeOverlaps(*target.TargetableFromRangePtr, origin.OriginRange()))) || target.Addr.Equals(origin.Address()))
+//@   loop 1 invariant [C11] implies(target.Type != cty.DynamicPseudoType, originAddr == origin.Address() && localOriginAddr == origin.Address())
+//@ contract (reference.Origins).Match (ro, localPath, target, targetPath) (result)
+//@   loop 1 iter [C11] implies(len(origins) > old(len(origins)), (typeis(refOrigin, "reference.LocalOrigin") && localPath.Equals(targetPath)) || (typeis(refOrigin, "reference.PathOrigin") && as(refOrigin, "reference.PathOrigin").TargetPath.Equals(targetPath)))
+//@   assert before (reference.Origins).Match#1 : [C11] arg1 == localPath && arg3 == targetPath
